@@ -23,4 +23,9 @@ one() {
   git -C /repo worktree remove --force $WT
 }
 export -f one
-ls -d /verif/seeded/*/ | sed 's:/$::' | xargs -P $J -I{} bash -c 'one {}'
+# SEEDS="id-prefix ..." restricts the run to those seeds
+if [ -n "${SEEDS:-}" ]; then
+  for s in $SEEDS; do ls -d /verif/seeded/$s*/; done | sed 's:/$::' | xargs -P $J -I{} bash -c 'one {}'
+else
+  ls -d /verif/seeded/*/ | sed 's:/$::' | xargs -P $J -I{} bash -c 'one {}'
+fi
